@@ -93,7 +93,15 @@ func (m *Machine) findIntrinsic(fn *ssa.Function) intrinsic {
 			}
 		}
 		if sf := fn.Pkg.Func(stubName); sf != nil {
+			// a harness may switch its stand-in off for an entry that exercises the real body: a package
+			// level variable  verifStubOff_<name>  set to true
+			off, _ := fn.Pkg.Members["verifStubOff_"+strings.TrimPrefix(stubName, "verifStub_")].(*ssa.Global)
 			return m.countStub(name+" (harness stub "+stubName+")", func(mm *Machine, fr *frame, args []Value) Value {
+				if off != nil {
+					if t, ok := mm.load(mm.global(off)).(*sym.Term); ok && t.IsTrue() {
+						return mm.callBody(fr.caller, fn, args, nil)
+					}
+				}
 				return mm.callFunction(fr.caller, sf, args, nil)
 			})
 		}
